@@ -54,6 +54,10 @@ CasesRows ==
     line |-> Line(cap)] :
      nnp \in 0..3, r2 \in {0, 1, 2, 8}, d \in {NoDef, IntV(7)}, cap \in {NoMatch} \cup {Groups7(a, b, c) : a \in SmallG, b \in SmallG, c \in {NoGroup, G(t12)}}}
 
+CasesTwoNotNull ==
+  {[cols |-> <<[One("p", 1, "int") EXCEPT !.nn = a1], [One("p", 2, "text") EXCEPT !.nn = a2], [One("p", 3, "int") EXCEPT !.nn = a3]>>, line |-> Line(cap)] :
+     a1 \in BOOLEAN, a2 \in BOOLEAN, a3 \in BOOLEAN, cap \in {Groups7(a, b, c) : a \in {NoGroup, G(t12)}, b \in {NoGroup, G(tAbc)}, c \in {NoGroup, G(t12), G(tAbc)}}}
+
 \* (iii) TIMESTAMP assembled from up to 7 groups
 PartTexts == {<<50, 48, 50, 49>>, <<48>>, <<49>>, <<49, 50>>, <<49, 51>>, <<51, 49>>, <<51, 50>>, <<50, 52>>, <<54, 48>>, <<53, 57>>, <<45, 49>>, <<120>>, <<74, 117, 110>>, <<106, 117, 108, 121>>,
               U32WrapText, MaxPlus1Text, <<57, 57, 57>>, <<49, 50, 51, 52, 53, 54, 55>>}
@@ -111,7 +115,7 @@ CasesJsonPath ==
   \cup {[cols |-> <<JWith(JsonC(<<F("a")>>, ty[1], ty[2]), m), TagCol>>, line |-> JLine(NoDoc, tag, k)] :
           ty \in JTypes, m \in JMods, tag \in {NoGroup, G(t12)}, k \in 1..5}
 
-Cases == (IF "types" \in CaseSets THEN CasesTypes ELSE {}) \cup (IF "rows" \in CaseSets THEN CasesRows ELSE {})
+Cases == (IF "types" \in CaseSets THEN CasesTypes ELSE {}) \cup (IF "rows" \in CaseSets THEN CasesRows \cup CasesTwoNotNull ELSE {})
          \cup (IF "ts" \in CaseSets THEN CasesTs ELSE {}) \cup (IF "arrays" \in CaseSets THEN CasesArrays ELSE {})
          \cup (IF "split" \in CaseSets THEN CasesSplit ELSE {})
          \cup (IF "jsonleaf" \in CaseSets THEN CasesJsonLeaf ELSE {}) \cup (IF "jsonpath" \in CaseSets THEN CasesJsonPath ELSE {})
